@@ -15,12 +15,13 @@ func init() { register("C08", "other", checkC08) }
 
 func checkC08(w *World, r *Result) {
 	r.Explanation = "Decides structural necessary conditions: EXH-c the Go->SQL mappings (newType over node kinds, typeConstraint over SQL types, basicTypeName/nameFromKind over basic kinds) handle every implementation/kind or refuse it with an explicit message; AGR-C08c NewTable appends one column per field in field order and skips exactly 'neither guard nor exported'; AGR-C08k isComposite accepts exactly integer basics and integer enums; AGR-C08f the self-reference exclusion of foreign keys applies to ID-typed detection only, a tagged field is a foreign key whenever the tag is present, and ForeignKeys/columns loops have no other filter; AGR-C08b each constraint family is produced by an unfiltered loop over the whole collection of the iterated table (foreign keys, guards by their own predicate, custom constraints), one CREATE TABLE per selected table; FLW-C08a the ON DELETE action, the guard value and the iterated table's name flow into the text of their constraint; AGR-C05d every table position in the DDL is filled by SQLTableName and column positions by the Go field name; AGR-C08p the primary column is decided by Table.Primary in both the DDL and the CRUD generator; DECL-ID the ID of every SQL declaration mentions every variable its content depends on. Does not decide: the Go->SQL type table itself (which kinds map to smallint), nullability choices and CHECK contents as values."
-	r.Rules = []string{"EXH-c", "AGR-C08c", "AGR-C08k", "AGR-C08f", "AGR-C08t", "AGR-C08b", "FLW-C08a", "AGR-C05d", "AGR-C08p", "DECL-ID", "CONST-EXACT", "UTF8-SLICE", "ALIAS-APPEND", "PRINTF"}
+	r.Rules = []string{"EXH-c", "AGR-C08c", "AGR-C08k", "AGR-C08f", "AGR-C08t", "AGR-C08b", "FLW-C08a", "AGR-C05d", "AGR-C08p", "AGR-C08i", "AGR-C08n", "DECL-ID", "CONST-EXACT", "UTF8-SLICE", "ALIAS-APPEND", "PRINTF"}
 	printfRule(w, r, "generator/sql")
 	aliasAppendRule(w, r, func(rel string) bool { return rel == "analysis/sql" || rel == "generator/sql" || rel == "generator" })
 	checkTotality(w, r)
 	checkNewTable(w, r)
 	checkIsComposite(w, r)
+	checkNewTypeNode(w, r)
 	checkForeignKeys(w, r)
 	checkTableIDThreshold(w, r)
 	checkConstraintFamilies(w, r)
@@ -362,6 +363,29 @@ func checkConstraintFamilies(w *World, r *Result) {
 			})
 			return true
 		})
+		// the loop runs to the end: no break, return or goto leaves it after the first hit
+		ast.Inspect(outer.Body, func(x ast.Node) bool {
+			rs, ok := x.(*ast.RangeStmt)
+			if !ok || render(info, rs.X, sub) != f.coll {
+				return true
+			}
+			ast.Inspect(rs.Body, func(y ast.Node) bool {
+				switch v := y.(type) {
+				case *ast.FuncLit:
+					return false
+				case *ast.RangeStmt, *ast.ForStmt:
+					return false // a break inside a nested loop leaves that loop only
+				case *ast.BranchStmt:
+					if v.Tok == token.BREAK || v.Tok == token.GOTO {
+						r.bad("AGR-C08b", fi.Name, f.call+": "+v.Tok.String()+" in the loop over "+f.coll, w.Pos(v.Pos()), "the loop stops at the first element that produces a constraint: the following guard columns / keys / comments of the same table get none")
+					}
+				case *ast.ReturnStmt:
+					r.bad("AGR-C08b", fi.Name, f.call+": return in the loop over "+f.coll, w.Pos(v.Pos()), "the generator returns from inside the constraint loop: later elements and later tables get no constraint")
+				}
+				return true
+			})
+			return false
+		})
 		r.cond(found && filterOK, "AGR-C08b", fi.Name, f.call+" for every element of "+f.coll, w.Pos(pos), "unfiltered loop over the whole collection of the iterated table (guards: only the IsSQLGuard predicate)", "the "+f.call+" family is not produced by an unfiltered loop over "+f.coll+": some constraints are missing")
 	}
 }
@@ -566,6 +590,46 @@ func checkPrimaryAgreement(w *World, r *Result) {
 		})
 		r.cond(uses, "AGR-C08p", fi.Name, "primary column decided by Table.Primary()", fnPos(w, fi), "calls Table.Primary", "this function decides the primary column without Table.Primary(): DDL and CRUD can disagree on which column is the id")
 	}
+	// AGR-C08i: columns are identified by their Go field name everywhere (CREATE TABLE, CRUD statements); Primary()
+	// must look at that name too, and package analysis/sql never keys a column by its JSON name
+	ncmp := 0
+	ast.Inspect(prim.Decl.Body, func(x ast.Node) bool {
+		be, ok := x.(*ast.BinaryExpr)
+		if !ok || be.Op != token.EQL {
+			return true
+		}
+		ncmp++
+		usesGoName, usesJSON := false, false
+		ast.Inspect(be, func(y ast.Node) bool {
+			if call, ok := y.(*ast.CallExpr); ok {
+				switch fullName(calleeOf(prim.Pkg.TypesInfo, call)) {
+				case "(*go/types.object).Name", "(*go/types.Var).Name":
+					usesGoName = true
+				case "(" + modPath + "/analysis.StructField).JSONName":
+					usesJSON = true
+				}
+			}
+			return true
+		})
+		r.cond(usesGoName && !usesJSON, "AGR-C08i", prim.Name, "id column recognised by its Go field name: "+es(be), w.Pos(be.Pos()),
+			"the comparison reads Field.Name() of the go/types field, the name every SQL statement uses for the column",
+			"the primary column is not recognised by the Go field name (the name CREATE TABLE and the CRUD statements use) but by another name of the field: `Id int64 `json:\"account_id\"`` is no longer the primary key, or a column whose JSON name is \"id\" becomes one")
+		return true
+	})
+	if ncmp == 0 {
+		Undecided("AGR-C08i: Table.Primary has no equality comparison")
+	}
+	for _, fi := range sortedFuncs(w) {
+		if w.Rel(fi.Obj.Pkg()) != "analysis/sql" || fi.Decl.Body == nil {
+			continue
+		}
+		ast.Inspect(fi.Decl.Body, func(x ast.Node) bool {
+			if call, ok := x.(*ast.CallExpr); ok && fullName(calleeOf(fi.Pkg.TypesInfo, call)) == "("+modPath+"/analysis.StructField).JSONName" {
+				r.bad("AGR-C08i", fi.Name, "JSONName() in package analysis/sql", w.Pos(call.Pos()), "a table column is keyed by its JSON name in the SQL analysis, while every generated statement names columns by the Go field name")
+			}
+			return true
+		})
+	}
 	// createStmt: primary => serial PRIMARY KEY
 	cs := w.MustFunc("generator/sql.createStmt")
 	found := false
@@ -650,5 +714,69 @@ func checkTableIDThreshold(w *World, r *Result) {
 	})
 	if n < 2 {
 		Undecided("isTableID: prefix and suffix branches not found")
+	}
+}
+
+// checkNewTypeNode (AGR-C08n): every SQL type newType returns wraps the node it was asked to convert (the
+// type-switch variable / parameter), not a node derived from it: Builtin.IsNullable, Type() and the JSON validators
+// look at that node, so wrapping the inner time type of a nullable wrapper makes the column NOT NULL.
+func checkNewTypeNode(w *World, r *Result) {
+	fi := w.MustFunc("analysis/sql.newType")
+	info := fi.Pkg.TypesInfo
+	itf, _ := w.TypeOf("analysis/sql", "Type").Underlying().(*types.Interface)
+	if itf == nil {
+		Undecided("AGR-C08n: analysis/sql.Type is not an interface")
+	}
+	var param types.Object
+	if fi.Decl.Type.Params.NumFields() == 1 && len(fi.Decl.Type.Params.List[0].Names) == 1 {
+		param = info.Defs[fi.Decl.Type.Params.List[0].Names[0]]
+	}
+	binders := map[types.Object]bool{param: true}
+	ast.Inspect(fi.Decl.Body, func(x ast.Node) bool {
+		if ts, ok := x.(*ast.TypeSwitchStmt); ok {
+			if as, ok := ts.Assign.(*ast.AssignStmt); ok {
+				if ta, ok := as.Rhs[0].(*ast.TypeAssertExpr); ok {
+					if id := identOf(ta.X); id != nil && objOf(info, id) == param {
+						for _, cl := range ts.Body.List {
+							if o := info.Implicits[cl]; o != nil {
+								binders[o] = true
+							}
+						}
+					}
+				}
+			}
+		}
+		return true
+	})
+	n := 0
+	ast.Inspect(fi.Decl.Body, func(x ast.Node) bool {
+		lit, ok := x.(*ast.CompositeLit)
+		if !ok {
+			return true
+		}
+		t := info.TypeOf(lit)
+		if t == nil || !types.Implements(t, itf) {
+			return true
+		}
+		for _, el := range lit.Elts {
+			kv, ok := el.(*ast.KeyValueExpr)
+			if !ok {
+				continue
+			}
+			vt := info.TypeOf(kv.Value)
+			if vt == nil || !strings.Contains(vt.String(), "/analysis.") {
+				continue // not the node field
+			}
+			n++
+			id := identOf(kv.Value)
+			good := id != nil && binders[objOf(info, id)]
+			r.cond(good, "AGR-C08n", fi.Name, es(lit.Type)+"{"+es(kv.Key)+": "+es(kv.Value)+"}", w.Pos(kv.Pos()),
+				"the SQL type wraps the node being converted",
+				"the SQL type wraps `"+es(kv.Value)+"`, a node derived from the one being converted: nullability (IsNullable looks at the wrapped node), the Go type and the validators of the column are those of the inner node -- e.g. a nullable date wrapper becomes `date NOT NULL`")
+		}
+		return true
+	})
+	if n < 5 {
+		Undecided("AGR-C08n: only %d SQL type literals found in newType", n)
 	}
 }
